@@ -45,6 +45,13 @@ def run(ctx):
             ctx.cov["traces_validated_against_impl"] += 1
         if n % 400 == 1:
             ctx.sample(res)
+    # a replica is re-pointed to another master while the first master keeps its slots
+    afile = os.path.join(ctx.work, "reassign.ndjson")
+    ctx.harness(["c14-reassign", "-out", afile], timeout=300)
+    for r in kit.read_ndjson(afile):
+        ctx.case(key=["reassign", r["strategy"], r["phase"]], nontrivial=True, n=r["reads"])
+        for b in r.get("bad") or []:
+            ctx.violation("read-to-foreign-replica/%s/%s" % (r["phase"], r["strategy"]), b, r)
     ctx.cov["exhaustive"] = True
     ctx.cov["rule"] = ("one case per (name as sent, argument count, read strategy) for every name of the module's finite name space; "
                        "all cases are non-trivial (each drives the real dispatch and routing code); exhaustive over the name space")
